@@ -20,7 +20,7 @@ RULE = ("(a) system: nodes with ciw.Schedule (1-4 shifts, zero-server shifts, of
         "Non-trivial (a): >= 2 shift changes with customers present or >= 1 slot with more waiting than its size, plus one of "
         "{zero shift with a queue, interruption, overtime server, slot starts}; distinct by digest.")
 ASSUMPTIONS = ["either side of a boundary is accepted exactly at a coincident instant (tie order between nodes is random by design, S5)"]
-WALL = {"quick": 50, "thorough": 540}
+WALL = {"quick": 150, "thorough": 540}
 
 ALLOWED = ["schedule", "sched_preempt", "sched_reroute", "slotted", "slot_capacitated", "slot_preempt", "priorities", "reneging", "batching",
            "discipline", "routing_objects", "self_loops", "inf", "cc_after", "server_priority", "zero_service"]
@@ -89,7 +89,7 @@ def subchecks(tier):
                      excluded=("sched_reroute_self", "slot_zero_first_arrival"))
     return [
         system_subcheck("system", prof, lambda spec: [ScheduleMonitor(spec)], nontrivial, classes=classes, obs=True,
-                        n={"quick": 2400, "thorough": 40000}, rule="scheduled / slotted nodes vs closed-form timetable"),
+                        n={"quick": 7200, "thorough": 40000}, rule="scheduled / slotted nodes vs closed-form timetable"),
         SubCheck("generators", gen_execute, cases=gen_cases, kind="unit", exhaustive=True, is_spec=False,
                  rule="all timetables with <= 3 boundaries from an 8-point grid x values 0-2 x 3 offsets; Schedule and Slotted generators over 3 cycles"),
     ]
